@@ -1,1 +1,465 @@
-/-! Property theorems for C12 (not built yet). -/
+import Cellml.C12.Lemmas
+import Cellml.C12.Detect
+import Cellml.C12.Forms
+set_option linter.unusedSectionVars false
+set_option linter.unusedSimpArgs false
+
+/-! # C12 — singularity removal only repairs: equal outside the window, accurate inside.
+
+    Model: `Cellml/C12/*.lean` — `Window` (singular point and fix range of an affine exponent argument, the swap, the
+    two merges), `Piecewise` (`_generate_piecewise` on values, for an arbitrary function), `Fix` (`_fix_expr_parts`,
+    `_remove_singularities`: which subterm is wrapped with which range, for an arbitrary detector), `Detect`
+    (`_get_singularity` on the affine fragment), `Traverse` (`remove_fixable_singularities`). The theorems hold over
+    EVERY ordered field `K` (all slopes, offsets, factors, voltages), every function `f` / every interpretation of
+    `exp`, every expression tree, every detector, every model, every exclusion set. The tie to cellmlmanip is the
+    correspondence check `harness/props/c12.py`.
+
+    NOT proved (needs real analysis over `exp`): the distance between the interpolated value and the analytic limit of
+    `U/(exp U − 1)`. The theorems carry the algebraic part — the range brackets the singular point and is exactly
+    `|U| ≤ δ`; equality outside; inside a convex combination of the two edge values, equal to them at the edges — the
+    numeric accuracy is checked by the oracle of the harness on every generated equation. -/
+
+namespace Cellml.Props.C12
+open _root_.C12 _root_.C12.Expr
+variable {K : Type} [Field K] [LinearOrder K] [IsStrictOrderedRing K]
+
+/-! ## The fix range -/
+
+/-- The range produced for `U = k·V + c` (`k ≠ 0`, `δ > 0`): the singular point lies strictly between the two bounds
+    (whichever of them is called `Vmin`), and after the swap of `_generate_piecewise` a voltage is inside the range
+    exactly when `|U(V)| ≤ δ`. -/
+theorem window_brackets (k c δ : K) (hk : k ≠ 0) (hδ : 0 < δ) :
+    (min (vminOf k c δ) (vmaxOf k c δ) < spOf k c ∧ spOf k c < max (vminOf k c δ) (vmaxOf k c δ)) ∧
+    ∀ V : K, (lo (vminOf k c δ) (vmaxOf k c δ) ≤ V ∧ V ≤ hi (vminOf k c δ) (vmaxOf k c δ)) ↔ |k * V + c| ≤ δ := by
+  obtain ⟨hlo, hhi⟩ := lo_window k c δ hk hδ
+  have hak : 0 < |k| := abs_pos.mpr hk
+  have hd : 0 < δ / |k| := div_pos hδ hak
+  refine ⟨⟨?_, ?_⟩, ?_⟩
+  · rw [← lo_eq_min, hlo]; linarith
+  · rw [← hi_eq_max, hhi]; linarith
+  · intro V
+    rw [hlo, hhi, affine_eq k c V hk, abs_mul, ← le_div_iff₀' hak, abs_le]
+    constructor
+    · rintro ⟨h1, h2⟩; constructor <;> linarith
+    · rintro ⟨h1, h2⟩; constructor <;> linarith
+
+/-- non-vacuity: `U = V/2 − 5/2`, `δ = 10⁻⁷`: `Vmin = 5.0000002 > Vmax = 4.9999998` (the swap is needed), `sp = 5` -/
+example : (0 : ℚ) < 1 / 10000000 ∧ (1 / 2 : ℚ) ≠ 0 ∧
+    vminOf (1 / 2 : ℚ) (-5 / 2) (1 / 10000000) = 50000002 / 10000000 ∧
+    vmaxOf (1 / 2 : ℚ) (-5 / 2) (1 / 10000000) = 49999998 / 10000000 ∧ spOf (1 / 2 : ℚ) (-5 / 2) = 5 ∧
+    lo (vminOf (1 / 2 : ℚ) (-5 / 2) (1 / 10000000)) (vmaxOf (1 / 2 : ℚ) (-5 / 2) (1 / 10000000)) = 49999998 / 10000000 := by
+  decide +kernel
+
+/-! ## The piecewise, for an arbitrary function `f` -/
+
+/-- Outside the range the repaired expression evaluates to the original one — for ANY `f`, any bounds. -/
+theorem outside_equal (f : K → K) (V vmin vmax : K)
+    (h : ¬ (lo vmin vmax ≤ V ∧ V ≤ hi vmin vmax)) : generate f V vmin vmax = f V := by
+  unfold generate interp; rw [if_neg h]
+
+/-- Inside the range (bounds `a < b` after the swap) the value is the convex combination
+    `(1 − t)·f(a) + t·f(b)` with `t = (V − a)/(b − a) ∈ [0, 1]` … -/
+theorem inside_convex (f : K → K) (V a b : K) (hab : a < b) (h : a ≤ V ∧ V ≤ b) :
+    interp f V a b = (1 - coeff V a b) * f a + coeff V a b * f b ∧ 0 ≤ coeff V a b ∧ coeff V a b ≤ 1 := by
+  refine ⟨?_, coeff_mem V a b hab h⟩
+  unfold interp; rw [if_pos h]; ring
+
+/-- … hence between the two edge values (finite whenever they are) … -/
+theorem inside_minmax (f : K → K) (V a b : K) (hab : a < b) (h : a ≤ V ∧ V ≤ b) :
+    min (f a) (f b) ≤ interp f V a b ∧ interp f V a b ≤ max (f a) (f b) := by
+  obtain ⟨he, h0, h1⟩ := inside_convex f V a b hab h
+  rw [he]
+  have h1' : 0 ≤ 1 - coeff V a b := by linarith
+  constructor
+  · have := min_le_left (f a) (f b); have := min_le_right (f a) (f b)
+    nlinarith [mul_le_mul_of_nonneg_left (min_le_left (f a) (f b)) h1', mul_le_mul_of_nonneg_left (min_le_right (f a) (f b)) h0]
+  · nlinarith [mul_le_mul_of_nonneg_left (le_max_left (f a) (f b)) h1', mul_le_mul_of_nonneg_left (le_max_right (f a) (f b)) h0]
+
+/-- … and within `|f(b) − f(a)|` of either edge value … -/
+theorem inside_close (f : K → K) (V a b : K) (hab : a < b) (h : a ≤ V ∧ V ≤ b) :
+    |interp f V a b - f a| ≤ |f b - f a| ∧ |interp f V a b - f b| ≤ |f b - f a| := by
+  obtain ⟨he, h0, h1⟩ := inside_convex f V a b hab h
+  have e1 : interp f V a b - f a = coeff V a b * (f b - f a) := by rw [he]; ring
+  have e2 : interp f V a b - f b = (1 - coeff V a b) * (-(f b - f a)) := by rw [he]; ring
+  constructor
+  · rw [e1, abs_mul, abs_of_nonneg h0]
+    exact mul_le_of_le_one_left (abs_nonneg _) h1
+  · rw [e2, abs_mul, abs_neg, abs_of_nonneg (by linarith : 0 ≤ 1 - coeff V a b)]
+    exact mul_le_of_le_one_left (abs_nonneg _) (by linarith)
+
+/-- … and equal to them at the edges: the repaired expression is continuous where it switches. -/
+theorem at_edges (f : K → K) (a b : K) (hab : a < b) : interp f a a b = f a ∧ interp f b a b = f b := by
+  unfold interp coeff
+  have hb : b - a ≠ 0 := by intro h; linarith
+  constructor
+  · rw [if_pos ⟨le_refl a, le_of_lt hab⟩]; simp
+  · rw [if_pos ⟨le_of_lt hab, le_refl b⟩, div_self hb]; ring
+
+/-- The statement for `_generate_piecewise` itself (with its swap): for distinct bounds and a voltage inside. -/
+theorem inside_between (f : K → K) (V vmin vmax : K) (hne : vmin ≠ vmax)
+    (h : lo vmin vmax ≤ V ∧ V ≤ hi vmin vmax) :
+    (∃ t : K, 0 ≤ t ∧ t ≤ 1 ∧
+      generate f V vmin vmax = (1 - t) * f (lo vmin vmax) + t * f (hi vmin vmax)) ∧
+    min (f (lo vmin vmax)) (f (hi vmin vmax)) ≤ generate f V vmin vmax ∧
+    generate f V vmin vmax ≤ max (f (lo vmin vmax)) (f (hi vmin vmax)) ∧
+    |generate f V vmin vmax - f (lo vmin vmax)| ≤ |f (hi vmin vmax) - f (lo vmin vmax)| ∧
+    |generate f V vmin vmax - f (hi vmin vmax)| ≤ |f (hi vmin vmax) - f (lo vmin vmax)| ∧
+    generate f (lo vmin vmax) vmin vmax = f (lo vmin vmax) ∧ generate f (hi vmin vmax) vmin vmax = f (hi vmin vmax) := by
+  have hab : lo vmin vmax < hi vmin vmax := by
+    rw [lo_eq_min, hi_eq_max]
+    rcases lt_or_gt_of_ne hne with h' | h'
+    · rw [min_eq_left (le_of_lt h'), max_eq_right (le_of_lt h')]; exact h'
+    · rw [min_eq_right (le_of_lt h'), max_eq_left (le_of_lt h')]; exact h'
+  obtain ⟨he, h0, h1⟩ := inside_convex f V _ _ hab h
+  obtain ⟨hmin, hmax⟩ := inside_minmax f V _ _ hab h
+  obtain ⟨hc1, hc2⟩ := inside_close f V _ _ hab h
+  obtain ⟨he1, he2⟩ := at_edges f _ _ hab
+  exact ⟨⟨_, h0, h1, he⟩, hmin, hmax, hc1, hc2, he1, he2⟩
+
+/-- non-vacuity: `f = x²` on the range `[1, 3]` given as `(Vmin, Vmax) = (3, 1)`: at `V = 2` the line gives 5 (not 4),
+    outside (`V = 4`) the function itself -/
+example : generate (fun x : ℚ => x * x) 2 3 1 = 5 ∧ generate (fun x : ℚ => x * x) 4 3 1 = 16 ∧
+    (3 : ℚ) ≠ 1 ∧ (lo (3 : ℚ) 1 ≤ 2 ∧ (2 : ℚ) ≤ hi 3 1) ∧ ¬ (lo (3 : ℚ) 1 ≤ 4 ∧ (4 : ℚ) ≤ hi 3 1) := by
+  decide +kernel
+
+/-- The result does not depend on which of the two bounds is called `Vmin`. -/
+theorem swap_irrelevant (f : K → K) (V vmin vmax : K) : generate f V vmin vmax = generate f V vmax vmin := by
+  unfold generate
+  rw [lo_eq_min, hi_eq_max, lo_eq_min, hi_eq_max, min_comm, max_comm]
+
+/-! ## Merging ranges with the same singular point -/
+
+/-- The widest range of two (what `_fix_expr_parts` builds for the terms of a sum) contains both, keeps the singular
+    point, and is ordered. -/
+theorem merge_widest (s t : Win K) :
+    Within s (mergeWide s t) ∧ Within t (mergeWide s t) ∧ (mergeWide s t).sp = s.sp ∧
+    (mergeWide s t).vmin ≤ (mergeWide s t).vmax := by
+  obtain ⟨h1, h2, h3, h4⟩ := min4_le s.vmin s.vmax t.vmin t.vmax
+  obtain ⟨g1, g2, g3, g4⟩ := le_max4 s.vmin s.vmax t.vmin t.vmax
+  have hord : (mergeWide s t).vmin ≤ (mergeWide s t).vmax := by
+    simp only [mergeWide, min2_eq, max2_eq]; exact le_trans h1 g1
+  refine ⟨⟨?_, ?_⟩, ⟨?_, ?_⟩, rfl, hord⟩
+  all_goals simp only [Win.lo_eq, Win.hi_eq, mergeWide, min2_eq, max2_eq] at hord ⊢
+  · rw [min_eq_left hord]; exact le_min h1 h2
+  · rw [max_eq_right hord]; exact max_le g1 g2
+  · rw [min_eq_left hord]; exact le_min h3 h4
+  · rw [max_eq_right hord]; exact max_le g3 g4
+
+/-- The same for any number of terms of a sum (`min(range)`, `max(range)` over all bounds). -/
+theorem merge_all_widest (s : Win K) (ts : List (Win K)) :
+    Within s (mergeAll s ts) ∧ (∀ t ∈ ts, Within t (mergeAll s ts)) ∧ (mergeAll s ts).sp = s.sp ∧
+    (mergeAll s ts).vmin ≤ (mergeAll s ts).vmax := by
+  induction ts generalizing s with
+  | nil =>
+    simp only [mergeAll, Within, Win.lo_eq, Win.hi_eq, min2_eq, max2_eq]
+    have h : min s.vmin s.vmax ≤ max s.vmin s.vmax := le_trans (min_le_left _ _) (le_max_left _ _)
+    refine ⟨⟨?_, ?_⟩, ?_, trivial, h⟩
+    · rw [min_eq_left h]
+    · rw [max_eq_right h]
+    · intro t ht; cases ht
+  | cons t ts ih =>
+    obtain ⟨hs, ht, hsp, _⟩ := merge_widest s t
+    obtain ⟨i1, i2, i3, i4⟩ := ih (mergeWide s t)
+    simp only [mergeAll]
+    refine ⟨within_trans hs i1, ?_, by rw [i3, hsp], i4⟩
+    intro u hu
+    rcases List.mem_cons.mp hu with rfl | hu
+    · exact within_trans ht i1
+    · exact i2 u hu
+
+/-- `_get_singularity` (lines 240-241) assigns `sing[0]` and then `sing[1]` in sequence. The result still covers the
+    new range and the lower end of the old one, and the whole old one when that was stored in order … -/
+theorem merge_seq_partial (s : Win K) (vmin vmax : K) :
+    Within ⟨vmin, vmax, s.sp⟩ (mergeSeq s vmin vmax) ∧ (mergeSeq s vmin vmax).lo ≤ s.lo ∧
+    (s.vmin ≤ s.vmax → Within s (mergeSeq s vmin vmax)) := by
+  obtain ⟨h1, h2, h3, h4⟩ := min4_le s.vmin s.vmax vmin vmax
+  obtain ⟨g1, g2, g3, g4⟩ := le_max4 (min (min (min s.vmin s.vmax) vmin) vmax) s.vmax vmin vmax
+  have hord : (mergeSeq s vmin vmax).vmin ≤ (mergeSeq s vmin vmax).vmax := by
+    simp only [mergeSeq, min2_eq, max2_eq]; exact g1
+  simp only [Within, Win.lo_eq, Win.hi_eq, mergeSeq, min2_eq, max2_eq] at hord ⊢
+  rw [min_eq_left hord, max_eq_right hord]
+  refine ⟨⟨le_min h3 h4, max_le g3 g4⟩, le_min h1 h2, fun hs => ⟨le_min h1 h2, ?_⟩⟩
+  rw [max_eq_right hs]; exact g2
+
+/-- … but NOT always its upper end: the full statement "the merged range contains both" is false of the code as it is.
+    A range found first from a positive slope is stored as `(Vmin, Vmax) = (4, −4)`; merging `(−1, 1)` gives `(−4, 1)`.
+    (The merged range still brackets the singular point and the property C12 is not affected: what lies outside the
+    narrower range is evaluated by the original formula.) -/
+theorem merge_seq_not_widest :
+    ¬ ((⟨4, -4, 0⟩ : Win ℚ).hi ≤ (mergeSeq (⟨4, -4, 0⟩ : Win ℚ) (-1) 1).hi) := by
+  decide +kernel
+
+/-- non-vacuity of `merge_widest`: ranges of slopes 1/2 and −1/4 around 5 (in units of 10⁻⁷: ±2 and ∓4) -/
+example : mergeWide (⟨52, 48, 50⟩ : Win ℚ) ⟨46, 54, 50⟩ = ⟨46, 54, 50⟩ := by decide +kernel
+
+/-! ## The traversal of the model -/
+
+/-- The defined variables are unchanged: the list of left-hand sides of `Model.equations` after the call is a
+    permutation of the one before (a replaced equation keeps its left-hand side), for any `fix`, any exclusions. -/
+theorem defined_vars_unchanged (fix : Expr → Option Expr) (excl : List String) (order eqs : List Eqn)
+    (hn : (lhss eqs).Nodup) (hm : ∀ e ∈ order, e.lhs ∈ lhss eqs) :
+    (lhss (traverse fix excl order eqs).eqs).Perm (lhss eqs) :=
+  foldl_perm fix excl order ⟨eqs, []⟩ hn hm
+
+/-- An equation is still there, unchanged, when its right-hand side is a `Piecewise`, or its variable is excluded,
+    or `_remove_singularities` reports no change for it (whatever was substituted into it). -/
+theorem survives (fix : Expr → Option Expr) (excl : List String) (order eqs : List Eqn) (e0 : Eqn)
+    (hn : (lhss eqs).Nodup) (hsub : ∀ e ∈ order, e ∈ eqs) (h0 : e0 ∈ eqs)
+    (h : e0.rhs.isPiecewise = true ∨ excl.contains e0.lhs = true ∨ ∀ env, fix (subst env e0.rhs) = none) :
+    e0 ∈ (traverse fix excl order eqs).eqs := by
+  unfold traverse
+  suffices H : ∀ (order : List Eqn) (st : TState), (∀ e ∈ order, e ∈ eqs) → e0 ∈ st.eqs →
+      e0 ∈ (order.foldl (step fix excl) st).eqs from H order ⟨eqs, []⟩ hsub h0
+  intro order
+  induction order with
+  | nil => intro st _ h; exact h
+  | cons e es ih =>
+    intro st hs hmem
+    simp only [List.foldl_cons]
+    apply ih _ (fun e' he' => hs e' (List.mem_cons_of_mem _ he'))
+    apply step_keeps fix excl st e e0 hmem
+    by_cases hl : e.lhs = e0.lhs
+    · have : e = e0 := eq_of_lhs eqs hn e e0 (hs e List.mem_cons_self) h0 hl
+      subst this
+      rcases h with h | h | h
+      · exact Or.inr (Or.inl h)
+      · exact Or.inr (Or.inr (Or.inl h))
+      · exact Or.inr (Or.inr (Or.inr (h _)))
+    · exact Or.inl hl
+
+/-- Equations of excluded variables are left unchanged (no assumption on the model at all). -/
+theorem excluded_unchanged (fix : Expr → Option Expr) (excl : List String) (order eqs : List Eqn) (e0 : Eqn)
+    (h0 : e0 ∈ eqs) (hx : e0.lhs ∈ excl) : e0 ∈ (traverse fix excl order eqs).eqs := by
+  unfold traverse
+  suffices H : ∀ (order : List Eqn) (st : TState), e0 ∈ st.eqs →
+      e0 ∈ (order.foldl (step fix excl) st).eqs from H order ⟨eqs, []⟩ h0
+  intro order
+  induction order with
+  | nil => intro st h; exact h
+  | cons e es ih =>
+    intro st hmem
+    simp only [List.foldl_cons]
+    apply ih
+    apply step_keeps fix excl st e e0 hmem
+    by_cases hl : e.lhs = e0.lhs
+    · right; right; left
+      rw [hl]; simpa using hx
+    · exact Or.inl hl
+
+/-- An equation whose right-hand side is a `Piecewise` is left unchanged. -/
+theorem piecewise_rhs_unchanged (fix : Expr → Option Expr) (excl : List String) (order eqs : List Eqn) (e0 : Eqn)
+    (hn : (lhss eqs).Nodup) (hsub : ∀ e ∈ order, e ∈ eqs) (h0 : e0 ∈ eqs) (hp : e0.rhs.isPiecewise = true) :
+    e0 ∈ (traverse fix excl order eqs).eqs :=
+  survives fix excl order eqs e0 hn hsub h0 (Or.inl hp)
+
+/-- If `fix` never reports a change, `Model.equations` is literally unchanged. -/
+theorem all_unchanged (fix : Expr → Option Expr) (excl : List String) (order eqs : List Eqn)
+    (h : ∀ r, fix r = none) : (traverse fix excl order eqs).eqs = eqs := by
+  unfold traverse
+  suffices H : ∀ (order : List Eqn) (st : TState), (order.foldl (step fix excl) st).eqs = st.eqs from H order ⟨eqs, []⟩
+  intro order
+  induction order with
+  | nil => intro st; rfl
+  | cons e es ih =>
+    intro st
+    simp only [List.foldl_cons]
+    rw [ih]
+    unfold step
+    split
+    · rfl
+    · dsimp only; rw [h]
+
+/-- `_remove_singularities` leaves an expression without `exp` alone … -/
+theorem removeSing_noexp (det : List Expr → List (Win Rat)) (e : Expr) (h : e.hasExp = false) :
+    removeSing det e = none := by
+  unfold removeSing; simp [h]
+
+/-- … and one in which the detector finds no pattern in any product (nothing wrapped, nothing reported changed). -/
+theorem fixParts_nodet (det : List Expr → List (Win Rat)) (hdet : ∀ as, det as = []) :
+    ∀ (n : Nat) (e : Expr), (fixParts det n e).win = none ∧ (fixParts det n e).changed = false := by
+  intro n
+  induction n with
+  | zero => intro e; exact ⟨rfl, rfl⟩
+  | succ n ih =>
+    intro e
+    unfold fixParts
+    split
+    · exact ⟨rfl, rfl⟩
+    · have htouch : ∀ as : List Expr, (as.map (fixParts det n)).any Res.touched = false := by
+        intro as
+        rw [List.any_eq_false]
+        intro r hr
+        obtain ⟨a, _, rfl⟩ := List.mem_map.mp hr
+        simp [Res.touched, (ih a).1, (ih a).2]
+      cases dropOnes e with
+      | add as =>
+        simp only [fixBody]
+        rw [sameSp_none _ (by
+          intro r hr
+          obtain ⟨a, _, rfl⟩ := List.mem_map.mp hr
+          exact (ih a).1)]
+        exact ⟨rfl, htouch as⟩
+      | pow a k =>
+        simp only [fixBody]
+        split
+        · refine ⟨rfl, ?_⟩
+          simp [Res.touched, (ih _).1, (ih _).2]
+        · exact ⟨rfl, rfl⟩
+      | mul as =>
+        simp only [fixBody]
+        rw [hdet as]
+        exact ⟨rfl, htouch as⟩
+      | num q => exact ⟨rfl, rfl⟩
+      | volt => exact ⟨rfl, rfl⟩
+      | var n => exact ⟨rfl, rfl⟩
+      | exp a => exact ⟨rfl, rfl⟩
+      | pw lo hi f => exact ⟨rfl, rfl⟩
+      | fn name as => exact ⟨rfl, rfl⟩
+
+theorem removeSing_nodet (det : List Expr → List (Win Rat)) (hdet : ∀ as, det as = []) (e : Expr) :
+    removeSing det e = none := by
+  unfold removeSing
+  split
+  · rfl
+  · simp [Res.touched, (fixParts_nodet det hdet _ e).1, (fixParts_nodet det hdet _ e).2]
+
+/-- Equations without such a pattern are left unchanged: no `exp` in the (partially evaluated) right-hand side. -/
+theorem no_pattern_unchanged (det : List Expr → List (Win Rat)) (excl : List String) (order eqs : List Eqn) (e0 : Eqn)
+    (hn : (lhss eqs).Nodup) (hsub : ∀ e ∈ order, e ∈ eqs) (h0 : e0 ∈ eqs)
+    (hx : ∀ env, (subst env e0.rhs).hasExp = false) :
+    e0 ∈ (traverse (removeSing det) excl order eqs).eqs :=
+  survives _ excl order eqs e0 hn hsub h0 (Or.inr (Or.inr (fun env => removeSing_noexp det _ (hx env))))
+
+/-- When no product of the model matches, `Model.equations` is literally unchanged. -/
+theorem no_match_model_unchanged (det : List Expr → List (Win Rat)) (hdet : ∀ as, det as = [])
+    (excl : List String) (order eqs : List Eqn) : (traverse (removeSing det) excl order eqs).eqs = eqs :=
+  all_unchanged _ excl order eqs (removeSing_nodet det hdet)
+
+
+/-! ## The four documented forms are always detected and repaired (affine exponent argument)
+
+    `form n P k c` (`Cellml/C12/Forms.lean`): the arguments of the product `P·U/(exp U − 1)` (n = 0), `P·U/(1 − exp U)`
+    (1), `P·(exp U − 1)/U` (2), `P·(1 − exp U)/U` (3) with `U = k·V + c`, for ALL rational `P`, `k ≠ 0`, `c`, in either
+    order of the factors. -/
+
+/-- exactly one range, the one of `U`: `Vmin = (δ − c)/k`, `Vmax = (−δ − c)/k`, `sp = −c/k` -/
+theorem forms_detected (δ : Rat) (P k c : Rat) (hk : k ≠ 0) (hc : c ≠ 0) (n : Nat) (rev : Bool) :
+    detect δ rev (form n P k c) = [window k c δ] := by
+  have e1 := classify_num P
+  have e2 := classify_U k c hk hc
+  have e3 := classify_Upow k c hk hc
+  have e4 := factor_emPos k c hk
+  have e5 := factor_emNeg k c hk
+  have e6 := factor_emPos1 k c hk
+  have e7 := factor_emNeg1 k c hk
+  have b1 : ∀ q, (Base.const q == Base.unsup) = false := fun _ => rfl
+  have b2 : ∀ a b, (Base.aff a b == Base.unsup) = false := fun _ _ => rfl
+  have b3 : ∀ a b p, (Base.em a b p == Base.unsup) = false := fun _ _ _ => rfl
+  unfold detect detect?
+  match n with
+  | 0 => cases rev <;> simp [form, classifyAll, e1, e2, e3, e4, e5, e6, e7, normalise, insertFactor, sameBase, pass, onTop, record, baseHasExp, absInt, window, spOf, b1, b2, b3]
+  | 1 => cases rev <;> simp [form, classifyAll, e1, e2, e3, e4, e5, e6, e7, normalise, insertFactor, sameBase, pass, onTop, record, baseHasExp, absInt, window, spOf, b1, b2, b3]
+  | 2 => cases rev <;> simp [form, classifyAll, e1, e2, e3, e4, e5, e6, e7, normalise, insertFactor, sameBase, pass, onTop, record, baseHasExp, absInt, window, spOf, b1, b2, b3]
+  | n + 3 => cases rev <;> simp [form, classifyAll, e1, e2, e3, e4, e5, e6, e7, normalise, insertFactor, sameBase, pass, onTop, record, baseHasExp, absInt, window, spOf, b1, b2, b3]
+
+
+/-- offset zero (`U = k·V`): SymPy holds `k·V` as a product, the factor `V` is what matches -/
+theorem forms_detected_zero_offset (δ : Rat) (P k : Rat) (hk : k ≠ 0) (hk1 : k ≠ 1) (n : Nat) (rev : Bool) :
+    detect δ rev (form n P k 0) = [window k 0 δ] := by
+  have e1 := classify_num P
+  have e2 := classify_U0' k hk hk1
+  have e3 := classify_U0 k hk hk1
+  have e4 := factor_emPos k 0 hk
+  have e5 := factor_emNeg k 0 hk
+  have e6 := factor_emPos1 k 0 hk
+  have e7 := factor_emNeg1 k 0 hk
+  have b1 : ∀ q, (Base.const q == Base.unsup) = false := fun _ => rfl
+  have b2 : ∀ a b, (Base.aff a b == Base.unsup) = false := fun _ _ => rfl
+  have b3 : ∀ a b p, (Base.em a b p == Base.unsup) = false := fun _ _ _ => rfl
+  unfold detect detect?
+  match n with
+  | 0 => cases rev <;> simp [form, classifyAll, e1, e2, e3, e4, e5, e6, e7, normalise, insertFactor, sameBase, pass, onTop, record, baseHasExp, absInt, window, spOf, b1, b2, b3]
+  | 1 => cases rev <;> simp [form, classifyAll, e1, e2, e3, e4, e5, e6, e7, normalise, insertFactor, sameBase, pass, onTop, record, baseHasExp, absInt, window, spOf, b1, b2, b3]
+  | 2 => cases rev <;> simp [form, classifyAll, e1, e2, e3, e4, e5, e6, e7, normalise, insertFactor, sameBase, pass, onTop, record, baseHasExp, absInt, window, spOf, b1, b2, b3]
+  | n + 3 => cases rev <;> simp [form, classifyAll, e1, e2, e3, e4, e5, e6, e7, normalise, insertFactor, sameBase, pass, onTop, record, baseHasExp, absInt, window, spOf, b1, b2, b3]
+
+
+/-- every equation `x = P·(one of the four forms)` with an affine exponent argument IS repaired, with exactly the
+    range `|U| ≤ δ` around the whole product -/
+theorem forms_repaired (δ : Rat) (P k c : Rat) (hk : k ≠ 0) (hc : c ≠ 0) (hP : P ≠ 1) (n : Nat) (rev : Bool) :
+    removeSing (detect δ rev) (mul (form n P k c)) = some (wrapWin (window k c δ) (mul (form n P k c))) := by
+  unfold removeSing
+  rw [form_hasExp]
+  simp only [Bool.not_true, Bool.false_eq_true, if_false]
+  unfold fixParts
+  rw [form_hasExp, form_dropOnes n P k c hP]
+  simp only [Bool.not_true, Bool.false_eq_true, if_false, fixBody, forms_detected δ P k c hk hc n rev]
+  simp [Res.touched, wrap]
+
+
+/-- non-vacuity: the hypotheses are met by `P = 3, k = 1/2, c = −5/2` (and `k = −3, c = 0`) -/
+example : (1 / 2 : Rat) ≠ 0 ∧ (-5 / 2 : Rat) ≠ 0 ∧ (3 : Rat) ≠ 1 ∧ (-3 : Rat) ≠ 0 ∧ (-3 : Rat) ≠ 1 := by decide +kernel
+
+/-! ## The repaired expression and the repaired model, semantically -/
+
+/-- A generated piecewise in a tree IS `_generate_piecewise` on values, with `f` the wrapped subterm read as a function
+    of the voltage — so `outside_equal` / `inside_between` speak about the trees the model produces. -/
+theorem pw_is_generate (I : Interp K) (v : K) (w : Win Rat) (f : Expr) :
+    eval I v (wrapWin w f) = interp (fun x => eval I x f) v ((w.lo : ℚ) : K) ((w.hi : ℚ) : K) := by
+  simp [wrapWin, eval]
+
+/-- Outside every generated range the expression returned by `_fix_expr_parts` (+ the final wrap) has the value of
+    the original one: every expression, every fuel, every detector, every interpretation of `exp`/functions/variables. -/
+theorem fix_outside_equal (I : Interp K) (v : K) (det : List Expr → List (Win Rat)) (n : Nat) (e : Expr)
+    (h : clear v (wrap (fixParts det n e))) : eval I v (wrap (fixParts det n e)) = eval I v e :=
+  fixParts_outside I v det n e h
+
+/-- The same for `_remove_singularities`. -/
+theorem remove_outside_equal (I : Interp K) (v : K) (det : List Expr → List (Win Rat)) (e new : Expr)
+    (h : removeSing det e = some new) (hc : clear v new) : eval I v new = eval I v e :=
+  removeSing_outside I v det e new h hc
+
+/-- **Only repairs.** Every solution of the original model (an interpretation under which every equation holds at
+    every voltage) satisfies every equation of the model after `remove_fixable_singularities` at every voltage outside
+    the generated ranges of that equation. -/
+theorem traverse_sound (I : Interp K) (det : List Expr → List (Win Rat)) (excl : List String) (order eqs : List Eqn)
+    (hsub : ∀ e ∈ order, e ∈ eqs) (hs : Solves I eqs) :
+    SolvesOutside I (traverse (removeSing det) excl order eqs).eqs := by
+  unfold traverse
+  suffices H : ∀ (order : List Eqn) (st : TState), (∀ e ∈ order, e ∈ eqs) → EnvOK I st.env → SolvesOutside I st.eqs →
+      SolvesOutside I (order.foldl (step (removeSing det) excl) st).eqs from
+    H order ⟨eqs, []⟩ hsub (by intro n r hl; simp [lookup] at hl) (fun e he v _ => hs e he v)
+  intro order
+  induction order with
+  | nil => intro st _ _ h; exact h
+  | cons e es ih =>
+    intro st ho henv hst
+    simp only [List.foldl_cons]
+    obtain ⟨h1, h2⟩ := step_sound I det excl st e (hs e (ho e List.mem_cons_self)) henv hst
+    exact ih _ (fun e' he' => ho e' (List.mem_cons_of_mem _ he')) h1 h2
+
+/-! ## Non-vacuity on a concrete model: `x = 3·U/(exp U − 1)`, `U = V/2 − 5/2`; `y = 2`; `z = 3·V` excluded -/
+
+def exU : Expr := add [mul [num (1 / 2), volt], num (-5 / 2)]
+def exX : Expr := mul [num 3, exU, pow (add [num (-1), exp exU]) (-1)]
+def exEqs : List Eqn := [⟨"x", exX⟩, ⟨"y", num 2⟩, ⟨"z", mul [num 3, volt]⟩]
+def exδ : Rat := 1 / 10000000
+
+/-- the detector finds exactly the range `[4.9999998, 5.0000002]` around 5; `x` is replaced (and moves to the end of
+    `Model.equations`), `y` and the excluded `z` stay; the hypotheses of the traversal theorems hold -/
+example : detect exδ false [num 3, exU, pow (add [num (-1), exp exU]) (-1)] = [window (1 / 2) (-5 / 2) exδ] ∧
+    (removeSing (detect exδ false) exX).isSome = true ∧
+    lhss (traverse (removeSing (detect exδ false)) ["z"] exEqs exEqs).eqs = ["y", "z", "x"] ∧
+    (lhss exEqs).Nodup ∧ (∀ e ∈ exEqs, e ∈ exEqs) ∧
+    (∀ env, (subst env (num 2)).hasExp = false) := by
+  refine ⟨by decide +kernel, by decide +kernel, by decide +kernel, by decide +kernel, fun e h => h, fun env => rfl⟩
+
+/-- a solution of the concrete model exists for any interpretation of `exp` (the hypothesis of `traverse_sound`) -/
+example (ex : ℚ → ℚ) : ∃ I : Interp ℚ, I.ex = ex ∧ Solves I exEqs := by
+  let I0 : Interp ℚ := ⟨ex, fun _ _ => 0, fun _ _ => 0⟩
+  refine ⟨⟨ex, fun _ _ => 0, fun n v => if n = "x" then eval I0 v exX else if n = "y" then 2 else 3 * v⟩, rfl, ?_⟩
+  intro e he v
+  simp only [exEqs, List.mem_cons, List.not_mem_nil, or_false] at he
+  rcases he with rfl | rfl | rfl <;> simp [eval, evalProd, evalSum, exX, exU, I0]
+
+end Cellml.Props.C12
